@@ -198,7 +198,7 @@ pub(crate) mod verif_sc {
     }
 
     // add_*: after every insertion the vector is ascending by order() and holds exactly the slots added (3 per kind)
-    sc_harness!(sc_add_keeps_sorted_permutation_3, 6, {
+    sc_harness!(sc_add_keeps_sorted_permutation_3, 11, {
         let (sc, _, _) = build::<3, 3, 3>(false);
         assert!(sc.stat_pres.len() == 3 && sc.rule_checks.len() == 3 && sc.stats.len() == 3);
         for i in 0..2 {
@@ -278,7 +278,7 @@ pub(crate) mod verif_sc {
             assert!(g.result().is_blocked() == any_blocked && g.result().is_pass() == !any_blocked);
         }
         std::mem::forget(r);
-        kani::cover!(any_blocked && NC >= 2 && verdicts[0] == 1 && verdicts[NC - 1] == 0); // a later Pass must not clear the block
+        kani::cover!(any_blocked && (NC < 2 || (verdicts[0] == 1 && verdicts[NC - 1] == 0))); // a later Pass must not clear the block
         kani::cover!(!any_blocked && verdicts[0] == 2);
     }
     sc_harness!(sc_entry_2_3_2, 6, { check_entry::<2, 3, 2>() });
